@@ -3666,6 +3666,74 @@ func (g *hGen) many3P(ks []int, thorough bool) {
 	}
 }
 
+// ---- a long token x many refused candidates ----
+//
+// A GENUINE permission token with one third-party caveat (its VerifierKey opens), attenuated by its holder with n
+// first-party caveats (no key needed, 14 bytes each), presented with m candidate discharges that name its ticket and
+// are all refused - each for one reason:
+//
+//	wrongbound : the candidate's first caveat binds it to some other parent (checked before any signature)
+//	wrongkey   : signed with a key of the candidate's own; its location has no trusted key: the MAC chain fails
+//	keymismatch: the same at the trusted third party's location: its key opens the ticket, the keys differ
+//	nested3p   : the candidate demands a discharge of its own
+//	attestation: an attestation in a candidate that is not a proof
+//
+// Verification keeps one refusal per candidate and joins them; what a refusal says (and costs) must not depend on
+// how long the presented token is - a message that quotes something proportional to the token (its binding ids, one
+// per caveat) makes memory (caveats of the token) x (refused candidates), each factor alone staying linear.
+// Entry order: two candidates, the token, the other candidates - the per-token operations of kind hdr look at
+// the first two entries, the list operations (find.verify, the bundle) at all of them.
+func (g *hGen) manyCavs(sizes [][2]int) {
+	ticket := hostileTicket([]byte{0x90})
+	const otherLoc = "https://tp-unknown.example"
+	for _, sz := range sizes {
+		n, m := sz[0], sz[1]
+		nonce := mpA(mpBn([]byte("legit-kid")), mpBn(bytes.Repeat([]byte{0x4c}, 16)), mpB(false))
+		tail := hmacSum(hKey, mpEnc(nonce))
+		body := mpA(mpS(hLoc3), mpBn(aeadSeal(tail, bytes.Repeat([]byte{3}, 12), hRN)), mpBn(ticket))
+		pairs := []*mpNode{mpU(11), body}
+		tail = hmacSum(tail, mpEnc(mpA(mpU(11), body)))
+		for i := 0; i < n; i++ {
+			w := mpA(mpU(uint64(i)), mpU(1<<40))
+			pairs = append(pairs, mpU(4), w)
+			tail = hmacSum(tail, mpEnc(mpA(mpU(4), w)))
+		}
+		tok := mpEnc(mpA(nonce, mpS(hLoc), mpA(pairs...), mpBn(tail)))
+		cand := func(kind string, i int) []byte {
+			dn := mpA(mpBn(ticket), mpBn(append(make([]byte, 12), bePut(4, uint64(i))...)), mpB(false))
+			key := hmacSum([]byte("candidate"), bePut(4, uint64(i)))
+			loc := otherLoc
+			var cavs []*mpNode
+			switch kind {
+			case "wrongbound":
+				key, loc = hRN, hLoc3 // everything about it is right but the parent it is bound to
+				cavs = []*mpNode{mpU(12), mpBn(hmacSum([]byte("other parent"), bePut(4, uint64(i)))[:16])}
+			case "wrongkey":
+			case "keymismatch":
+				loc = hLoc3
+			case "nested3p":
+				key = hRN
+				cavs = []*mpNode{mpU(11), mpA(mpS("https://tp/nested"), mpBn(bytes.Repeat([]byte{7}, 60)), mpBn(bytes.Repeat([]byte{8}, 60)))}
+			case "attestation":
+				key = hRN
+				cavs = []*mpNode{mpU(23), mpU(uint64(i))}
+			}
+			t := hmacSum(key, mpEnc(dn))
+			for j := 0; j+1 < len(cavs); j += 2 {
+				t = hmacSum(t, mpEnc(mpA(cavs[j], cavs[j+1])))
+			}
+			return mpEnc(mpA(dn, mpS(loc), mpA(cavs...), mpBn(t)))
+		}
+		for _, kind := range []string{"wrongbound", "wrongkey", "keymismatch", "nested3p", "attestation"} {
+			entries := [][]byte{cand(kind, 0), cand(kind, 1), tok}
+			for i := 2; i < m; i++ {
+				entries = append(entries, cand(kind, i))
+			}
+			g.add("hdr", fmt.Sprintf("tok.manycavs.%s.%dx%d", kind, n, m), []byte(hdrOf(entries...)))
+		}
+	}
+}
+
 // ------------------------------------------------------------------------------------------------
 
 func famHostile(r *Rng, o *Out, tier string) {
@@ -3699,9 +3767,11 @@ func famHostile(r *Rng, o *Out, tier string) {
 	if tier == "thorough" {
 		g.headersMany([]int{3000, 20000})
 		g.many3P([]int{200, 400}, true)
+		g.manyCavs([][2]int{{2000, 200}, {6000, 600}})
 	} else {
 		g.headersMany([]int{3000})
 		g.many3P([]int{200}, false)
+		g.manyCavs([][2]int{{2000, 200}})
 	}
 	// dedicated children: inputs whose nesting is proportional to their length (a fatal stack overflow cannot be recovered)
 	t99999 := []byte{0x92, 0xce, 0x00, 0x01, 0x86, 0x9f}
